@@ -1579,6 +1579,35 @@ def policy_direct_oracle(c, o):
     documentation says (double below the threshold, add the threshold from there on, refuse beyond the limit)"""
     v = Verdict()
     t = c.split(' ')
+    if len(t) == 5:
+        # `Q <policy> <capacity> <fa|fq> <len>`: a reader with a LARGE buffer over one record of `len` bytes. Judged on the
+        # request log alone: the first request passes the initial capacity, every later one the size the policy answered
+        # last (the buffer has exactly the size the policy said); the record is returned iff nothing was refused and it fits
+        # at the end; requests are only made while the record does not fit
+        v.nontrivial = True
+        tok, _, log = o.strip().partition(' L=')
+        if tok not in ('R', 'E:bl'):
+            v.failures.append('large buffer: the read returned %s' % tok[:40])
+            return v
+        cap, n = int(t[2]), int(t[4])
+        for (cur, ans) in parse_log(log):
+            if cur != cap:
+                v.failures.append('large buffer: the policy was passed %d, but the buffer has the size %d it answered' % (cur, cap))
+                return v
+            if cap > n:
+                v.failures.append('large buffer: growth requested at capacity %d for a file of %d bytes' % (cap, n))
+                return v
+            if ans is None:
+                if tok != 'E:bl':
+                    v.failures.append('large buffer: the policy refused but the read returned %s' % tok)
+                return v
+            cap = ans
+        if tok != 'R' or cap < n:
+            v.failures.append('large buffer: %s at capacity %d for a record of %d bytes without a refusal' % (tok, cap, n))
+        msg = builtin_policy_check({'pol': t[1], 'ops': []}, log)
+        if msg:
+            v.failures.append(msg)
+        return v
     msg = builtin_policy_check({'pol': t[1], 'ops': []}, '%s>%s' % (t[2], o.strip()))
     v.nontrivial = True
     if o.strip() in ('PANIC', 'bad-case'):
